@@ -168,3 +168,11 @@ Proof.
 Qed.
 
 End Drop.
+
+(* ---- orientation: a packet and its reply map to the same tuple -------------------------------------------- *)
+
+Lemma orient_reverse w : orient true (reverse w) = orient false w /\ orient false (reverse w) = orient true w.
+Proof.
+  destruct w as [[[[[src dst] sp] dp] proto] frag]. unfold orient, reverse.
+  destruct (N.eqb proto ProtoICMP) eqn:E; cbn [fst snd]; rewrite ?E; destruct frag; split; reflexivity.
+Qed.
